@@ -127,13 +127,14 @@ def gen_sdl(seed, idx):
     out.append("%senum Color%s {\n%s\n}" % (_desc(r), _dirs(r, "ENUM"),
                                           "\n".join(vals)))
     out.append(
-        "%sinput Pt%s {\n  x: Int!\n%s  y: Int = %s%s\n  tag: String\n}" % (
+        "%sinput Pt%s {\n  x: Int!\n%s  y: Int = %s%s\n  tag: String\n"
+        "  z_index: Int\n}" % (
             _desc(r), _dirs(r, "INPUT_OBJECT"), _desc(r, "  "),
             r.choice(DEFAULTS["Int"]), _dirs(r, "INPUT_FIELD_DEFINITION")))
 
     out.append(
         "%sinput Box {\n  pt: Pt! = {x: 7}\n  tags: [String!]\n"
-        "  shade: Color = GREEN\n}" % _desc(r))
+        "  shade: Color = GREEN\n  fill_color: Color\n}" % _desc(r))
 
     # a small palette of argument kinds per schema, so that several fields
     # declare the same argument names (with or without defaults)
@@ -243,7 +244,7 @@ def gen_sdl(seed, idx):
                    "  parts: [%s!]\n}" % (objs[0], objs[-1]))
         out.append("extend type %s {\n  _entities: [_Entity]\n"
                    "  _service: _Service\n}" % qname)
-    if r.random() < 0.3:
+    if r.random() < 0.5:
         # an ordinary object type whose name is a root operation name in
         # another case (root types are found by their exact names)
         alike = r.choice(("mutation", "SUBSCRIPTION", "subscription",
